@@ -494,6 +494,30 @@ impl Node {
     pub fn f1_loops_all_hard(&self) -> bool {
         !self.any(&|n| matches!(n, Repeat(c, _, None, _) if c.nullable() && !c.syntactically_hard()))
     }
+    /// Finding FY (regex-syntax lifts a common prefix out of an alternation): some alternation
+    /// whose branches ALL start - after looking through non-capturing groups and nested
+    /// concatenations - with the same element, and that element can end in more than one place
+    /// (it holds a repeat with a range or an alternation). Literal-only prefixes are harmless.
+    pub fn has_common_prefix_alt(&self) -> bool {
+        fn first(n: &Node) -> Option<&Node> {
+            match n {
+                Concat(v) => v.first().and_then(first),
+                NonCap(b) => first(b),
+                Empty => None,
+                other => Some(other),
+            }
+        }
+        fn variable(n: &Node) -> bool {
+            n.any(&|m| matches!(m, Repeat(_, lo, hi, _) if Some(*lo) != *hi) || matches!(m, Alt(_)))
+        }
+        self.any(&|n| match n {
+            Alt(v) if v.len() >= 2 => match first(&v[0]) {
+                Some(f) if variable(f) => v.iter().all(|b| matches!(b, Concat(_) | NonCap(_)) && first(b) == Some(f)),
+                _ => false,
+            },
+            _ => false,
+        })
+    }
     pub fn has_cond(&self) -> bool {
         self.any(&|n| matches!(n, CondGroup(..) | CondExpr(..) | GroupExists(_)))
     }
